@@ -49,12 +49,13 @@ def generated_sources(route):
             entry = linecache.cache.get(code.co_filename)
             if entry:
                 out[code.co_filename] = ''.join(entry[2])
-            g = fn.__globals__
-            for f in g.get('funcs') or ():
-                walk(f)
-            for k in ('endpoint', 'render'):
-                if k in g:
-                    walk(g[k])
+            # whatever the generated function's private namespace refers to: functions and lists of functions
+            for v in list(fn.__globals__.values()):
+                if isinstance(v, (list, tuple)):
+                    for f in v:
+                        walk(f)
+                else:
+                    walk(v)
     walk(route._execute)
     return out
 
@@ -66,15 +67,12 @@ def check_generated_structure(src):
     tree = ast.parse(src)
     for node in ast.walk(tree):
         if isinstance(node, ast.Call):
-            callee = node.func
-            is_funcs = isinstance(callee, ast.Subscript) and isinstance(callee.value, ast.Name) and callee.value.id == 'funcs'
-            is_named = isinstance(callee, ast.Name) and callee.id in ('endpoint', 'render')
-            if is_funcs or is_named:
-                # (positional arguments cannot be judged structurally; the identity comparison of the
-                # recorded arguments covers them)
-                for kw in node.keywords:
-                    if kw.arg is None or not isinstance(kw.value, ast.Name) or kw.value.id != kw.arg:
-                        problems.append('keyword %r bound to %s' % (kw.arg, ast.dump(kw.value)))
+            # every call the generated code makes (whatever it calls its private references to the chain functions)
+            # (positional arguments cannot be judged structurally; the identity comparison of the
+            # recorded arguments covers them)
+            for kw in node.keywords:
+                if kw.arg is None or not isinstance(kw.value, ast.Name) or kw.value.id != kw.arg:
+                    problems.append('keyword %r bound to %s' % (kw.arg, ast.dump(kw.value)))
         if isinstance(node, ast.FunctionDef):
             a = node.args
             if a.defaults or a.kw_defaults or a.vararg or a.kwarg:
@@ -156,6 +154,10 @@ def check_config(acc, h, cfg, layer, digest=None, with_decoys=False):
         reqs.append(('route', h.path.replace('/', '//')[1:], 'GET', {}))
     if h.path_absent:
         reqs.append(('route', h.path_absent, 'GET', dict((n, None) for n in cfg['url'])))
+    if cfg.get('url') and not cfg.get('url_optional'):
+        # segments that still contain a percent escape after the server's decoding (the client sent %2541): the
+        # value is that text, not its second decoding
+        reqs.append(('route', h.path.replace('u_', 'u%41_'), 'GET', dict((n, 'u%41_' + n) for n in cfg['url'])))
     for what, path, method, url_values in reqs:
         h.url_values = url_values
         res, trace = chain.run_request(h, path, method)
@@ -236,6 +238,80 @@ def check_rebound(acc, h, cfg, layer):
 
 DECOY_LAYERS = ('L1a-1', 'L2-1', 'LB')
 
+# names a developer might well give a resource, and which generated or framework code might use for itself
+COLLIDERS = ['response', 'resp', 'ret', 'result', 'res', 'ctx', 'inner', 'func', 'funcs', 'args', 'kwargs', 'route', 'app',
+             'application', 'error', 'exc', 'e', 'params', 'path', 'method', 'url', 'data', 'endpoint', 'render', 'req',
+             'start_response', 'environ', 'middleware', 'mw', 'f', 'fn', 'name', 'value', 'BaseResponse', 'isinstance',
+             'process_request', 'Response', 'len', 'dict', 'list', 'type', 'id', 'object', 'input', 'format', 'filter']
+
+
+def harvest_names(h):
+    """Every identifier that occurs in the code clastic generates for a representative route, plus the names in the
+    generated functions' global namespaces, plus COLLIDERS: candidates for an accidental capture of an injectable."""
+    import ast
+    import keyword
+    probe = {'mws': [{'level': 'app', 'type': 'T0', 'request': {'params': []}, 'endpoint': {'params': []},
+                      'render': {'params': []}},
+                     {'level': 'route', 'type': 'T1', 'request': {'params': []}, 'endpoint': {'params': []},
+                      'render': {'params': []}}],
+             'endpoint': {'params': []}, 'render': {'params': [['context', 'req']]}, 'url': ['a'], 'app_res': [],
+             'route_res': []}
+    app = h.build(probe)
+    names = set(COLLIDERS)
+    seen_fns = set()
+
+    def walk_globals(fn):
+        code = getattr(fn, '__code__', None)
+        if code is None or id(fn) in seen_fns or not code.co_filename.startswith('<sinter generated'):
+            return
+        seen_fns.add(id(fn))
+        names.update(k for k in fn.__globals__ if isinstance(k, str))
+        for v in list(fn.__globals__.values()):
+            for f in (v if isinstance(v, (list, tuple)) else (v,)):
+                walk_globals(f)
+    for rt in list(app.routes) + [app._null_route]:
+        walk_globals(rt._execute)
+        for src in generated_sources(rt).values():
+            for node in ast.walk(ast.parse(src)):
+                if isinstance(node, ast.Name):
+                    names.add(node.id)
+                elif isinstance(node, ast.arg):
+                    names.add(node.arg)
+                elif isinstance(node, ast.FunctionDef):
+                    names.add(node.name)
+    ok = []
+    for nm in sorted(names):
+        if nm in B.RESERVED or keyword.iskeyword(nm) or nm.startswith('__') or not nm.isidentifier():
+            continue
+        if nm in ('self', 'cls', 'True', 'False', 'None', '_H', '_D'):
+            continue
+        ok.append(nm)
+    return ok
+
+
+def gen_LG(names):
+    consumers = ['ep', 'rn', 'm1.request', 'm1.endpoint', 'm1.render']
+    for nm in names:
+        for src in (('app_res',), ('route_res',), ('mw', 0, 'request'), ('url',)):
+            for consumer in consumers:
+                cfg = c01.empty_cfg()
+                m0 = {'level': 'app', 'type': 'T0', 'request': c01.fspec([])}
+                m1 = {'level': 'route', 'type': 'T1'}
+                if consumer.startswith('m1.'):
+                    m1[consumer[3:]] = c01.fspec([(nm, 'req')])
+                else:
+                    m1['request'] = c01.fspec([])
+                cfg['mws'] = [m0, m1]
+                cfg['endpoint'] = c01.fspec([(nm, 'req')] if consumer == 'ep' else [])
+                cfg['render'] = c01.fspec([(nm, 'req')] if consumer == 'rn' else [], [('context', 'req')])
+                if src[0] == 'mw':
+                    m0['provides'] = [nm]
+                elif src[0] == 'url':
+                    cfg['url'] = [nm]
+                else:
+                    cfg[src[0]] = [nm]
+                yield cfg
+
 
 def nshards(tier):
     return 32 if tier == 'quick' else 64
@@ -269,6 +345,23 @@ def shard(tier, i, n, seed):
                 check_config(acc, h, cfg, name, with_decoys=True)
             if k % 20011 == i:
                 acc.sample({'layer': name, 'cfg': cfg})
+    # layer LG: injectables named like identifiers of the generated code
+    names = harvest_names(h)
+    acc.extra['harvested_names'] = [len(names)]
+    if len(names) < len(COLLIDERS):
+        raise common.InternalError('identifier harvest found only %d names' % len(names))
+    for j, cfg in enumerate(gen_LG(names)):
+        if j % n != i:
+            continue
+        before = acc.evaluated
+        check_config(acc, h, cfg, 'LG')
+        if acc.evaluated == before:
+            # not even constructed: a plain resource / URL / provided name was refused
+            try:
+                h.build(cfg, error_handler=c01.reraiser())
+            except Exception as e:
+                acc.violation('C02:LG:name-refused:%s' % type(e).__name__, 'an injectable named like %r was refused: %r'
+                              % (cfg, e), {'cfg': cfg, 'layer': 'LG'})
     acc.extra['hashseed_digest'] = [digest.hexdigest()]
     acc.extra['hashseed_common_cases'] = [ncommon]
     return acc
